@@ -174,7 +174,7 @@ func (e *Exec) Judge() *Judgement {
 			continue
 		}
 		out := j.Outs[c.TxIndex]
-		if !c.Returned {
+		if !c.HasReturned() {
 			if c.TxIndex != 0 && e.GoalReached {
 				j.add("answer", []string{"C08"}, "answer/unanswered", "%s (transaction %d) was never answered although its transaction is %s", c.Name(), c.TxIndex, stateOf(st, c.TxIndex))
 			}
